@@ -59,7 +59,7 @@ func apifuDesc() *desc {
 func apifuAPI(gated, registerPageInfo bool, log *calls) (*apifu.API, error) {
 	logged := func(key string, v func(graphql.FieldContext) interface{}) func(graphql.FieldContext) (interface{}, error) {
 		return func(ctx graphql.FieldContext) (interface{}, error) {
-			log.log = append(log.log, key)
+			log.add(key)
 			return v(ctx), nil
 		}
 	}
@@ -105,7 +105,7 @@ func apifuAPI(gated, registerPageInfo bool, log *calls) (*apifu.API, error) {
 				"node": {Type: graphql.NewNonNullType(thingType), Resolve: logged("QueryThingsEdge.node", func(ctx graphql.FieldContext) interface{} { return ctx.Object })},
 			},
 			ResolveAllEdges: func(ctx graphql.FieldContext) (interface{}, func(a, b interface{}) bool, error) {
-				log.log = append(log.log, "Query.things")
+				log.add("Query.things")
 				return things, func(a, b interface{}) bool { return a.(string) < b.(string) }, nil
 			},
 		}))
@@ -125,9 +125,9 @@ func (s *side) runHTTP(query string, vars map[string]interface{}) *observation {
 	r := httptest.NewRequest("POST", "/graphql", bytes.NewReader(body)).WithContext(ctx)
 	r.Header.Set("Content-Type", "application/json")
 	w := httptest.NewRecorder()
-	s.log.log = nil
+	s.log.take()
 	s.api.ServeGraphQL(w, r)
-	o.calls = s.log.log
+	o.calls = s.log.take()
 	if w.Code != http.StatusOK {
 		panic("ServeGraphQL answered " + w.Result().Status)
 	}
